@@ -3,7 +3,7 @@ bound over a fixed alphabet of concrete API calls on a segment (and a smaller al
 real code and compared, after every step, with a plain reference model (per child name an ordered list of
 repetitions), with the tree-consistency invariants (C10), the read-purity check (C11) and the
 rejected-operation-leaves-the-target-unchanged check (C12).
-Bound: quick = all sequences of length <= 3, thorough = length <= 4 (segment alphabet 20 ops, message alphabet 9 ops)."""
+Bound: quick = all sequences of length <= 3, thorough = length <= 4 (segment alphabet 20 ops, message alphabet 11 ops)."""
 import itertools
 import sys
 
@@ -238,10 +238,28 @@ def run_segment(R, maxlen, level):
                 m2 = m.copy()
                 expect = model(m2)
                 if expect == 'skip':
+                    # not modelled (composite update of an existing repetition): still run it and check that it does
+                    # not reach into the other element (copy by value) nor break the tree invariants
+                    try:
+                        real(s, other)
+                    except Exception:
+                        pass
+                    if other.to_er7() != other_text:
+                        R.fail('C09:copy-aliases-source:' + ';'.join(label), 'C09:copy-aliases-source',
+                               'after %s the source of a copy changed to %r' % (label, other.to_er7()), replay(label, level))
+                        ok = False
+                        break
+                    pr = consistency(s, R, label)
+                    if pr:
+                        R.fail('C10:inconsistent:' + ';'.join(label), 'C10:inconsistent:%s' % pr[0][:40],
+                               'after %s: %s' % (label, '; '.join(pr[:3])), replay(label, level))
+                        ok = False
+                        break
                     ok = None
                     break
                 # C11: a read chain to a child that does not exist must not write
                 _ = s.pid_11.xad_1.sad_1
+                _ = s.pid_3.cx_10.cwe_1.value, s.pid_5.xpn_1.fn_1.value, s.pid_8.value
                 _ = len(s.pid_13), repr(s.pid_4), list(s.pid_6)
                 if er7(s) != before_er7 or [id(c) for c in s.children] != before_kids:
                     R.fail('C11:read-writes:' + ';'.join(label), 'C11:read-writes', 'reading absent children changed %r into %r after %s'
@@ -268,6 +286,8 @@ def run_segment(R, maxlen, level):
                         break
                     continue
                 if expect == 'raises':
+                    if er7(s) == before_er7 and [id(c) for c in s.children] == before_kids:
+                        continue        # accepted as a no-op (e.g. deleting a child that only exists as a temporary one)
                     R.fail('C12:should-reject:' + ';'.join(label), 'C12:should-reject:%s' % name,
                            'op %s was accepted; segment now %r (history %s)' % (name, er7(s), label), replay(label, level))
                     ok = False
@@ -323,6 +343,31 @@ def msg_ops():
         def real(m):
             getattr(m, name.lower())[i] = text
         return ('%s[%d]=%r' % (name.lower(), i, text), real, ('seti', name, (i, text)))
+    def deep_write(path, text, seg, segtext):
+        """C11: read a chain through segments that do not exist yet, then write: exactly the chain is materialised"""
+        def real(m):
+            obj = m
+            parts = path.split('.')
+            for p in parts[:-1]:
+                obj = getattr(obj, p)
+            setattr(obj, parts[-1], text)
+        return ('%s=%r' % (path, text), real, ('deep', seg, segtext))
+
+    def read_deeper_then_write(read_path, path, text, seg, segtext):
+        def real(m):
+            obj = m
+            for p in read_path.split('.'):
+                obj = getattr(obj, p)
+            _ = len(obj)
+            obj = m
+            parts = path.split('.')
+            for p in parts[:-1]:
+                obj = getattr(obj, p)
+            setattr(obj, parts[-1], text)
+        return ('read %s; %s=%r' % (read_path, path, text), real, ('deep', seg, segtext))
+
+    ops += [deep_write('pv2.pv2_3.ce_1', 'X', 'PV2', 'PV2|||X'),
+            read_deeper_then_write('pd1.pd1_4.xcn_2.fn_1', 'pd1.pd1_4', 'A^B', 'PD1', 'PD1||||A^B')]
     ops += [setseg('EVN', 'EVN||20200101'), setseg('NK1', 'NK1|1'), setseg('NK1', 'NK1|9'), addseg('NK1', 'NK1|2'),
             addseg('PV1', 'PV1|1|I'), setseg('PID', 'PID|1'), delseg('NK1'), setidx('NK1', 1, 'NK1|7'), delseg('EVN')]
     return ops
@@ -356,12 +401,26 @@ def run_message(R, maxlen, level):
                         m2.pop(idxs[0])
                     else:
                         expect = 'raises'
+                elif kind == 'deep':
+                    if idxs:
+                        expect = 'skip'
+                    else:
+                        m2.append((seg, arg))
                 elif kind == 'seti':
                     i, text = arg
                     if i < len(idxs):
                         m2[idxs[i]] = (seg, text)
                     else:
                         m2.append((seg, text))
+                # C11: reads of absent segments / fields must not write
+                _ = m.al1.al1_3.ce_2, len(m.db1), m.pid.pid_3.cx_10.cwe_1.value
+                if [(c.name, c.to_er7()) for c in m.children] != before:
+                    R.fail('C11:msg-read-writes:' + ';'.join(label), 'C11:msg-read-writes', 'reading absent children changed the message (history %s)' % label)
+                    ok = False
+                    break
+                if expect == 'skip':
+                    ok = None
+                    break
                 try:
                     real(m)
                     raised = None
@@ -398,6 +457,8 @@ def run_message(R, maxlen, level):
                     break
             if ok:
                 R.ok(('msg', level) + seq)
+            elif ok is None:
+                R.evaluations += 1
 
 
 def main():
@@ -408,7 +469,7 @@ def main():
         run_segment(R, maxlen if level == 2 else maxlen - 1, level)
         run_message(R, maxlen if level == 2 else maxlen - 1, level)
     R.rule = 'all sequences over a fixed alphabet of API calls; non-trivial = distinct (level, sequence) that ran to its end'
-    R.bound = 'sequence length <= %d (TOLERANT) / <= %d (STRICT); 20 segment ops, 9 message ops' % (maxlen, maxlen - 1)
+    R.bound = 'sequence length <= %d (TOLERANT) / <= %d (STRICT); 20 segment ops, 11 message ops' % (maxlen, maxlen - 1)
     R.dump(a.out)
 
 
